@@ -74,13 +74,20 @@ def effMax (isInt : Bool) (o : NumOpts) : Option Q :=
 
 def multKey (fx : Bool) : String := if fx then "multipleOf" else "multiplesOf"
 
+/-- `exclusiveMaximum` is emitted only together with a declared `maximum` (the runtime ignores the
+    flag otherwise) -/
+def exclEff (o : NumOpts) : Bool := o.exclMax && o.max.isSome
+
+/-- `abs(value.multiplesOf)` -/
+def absJ (m : Int) : PyVal := .int (Int.ofNat m.natAbs)
+
 /-- `NumberMapper.to_schema` / `IntegerMapper.to_schema` (entries that are `None` are dropped) -/
 def numKws (fx : Bool) (ty : String) (isInt : Bool) (o : NumOpts) : List (PyVal × PyVal) :=
   [kw "type" (.str ty)]
-  ++ optKw (multKey fx) (o.mult.map PyVal.int)
+  ++ optKw (multKey fx) (o.mult.map absJ)
   ++ optKw "minimum" ((effMin isInt o).map numJ)
   ++ optKw "maximum" ((effMax isInt o).map numJ)
-  ++ optKw "exclusiveMaximum" (if o.exclMax then some (.bool true) else none)
+  ++ optKw "exclusiveMaximum" (if exclEff o then some (.bool true) else none)
 
 /-- `StringMapper.to_schema` -/
 def strKws (lo hi : Option Nat) (pat : Option String) : List (PyVal × PyVal) :=
@@ -105,7 +112,8 @@ def setKws (sz : SizeOpts) (items : Option PyVal) : List (PyVal × PyVal) :=
   ++ optKw "minItems" (sz.min.map natJ)
   ++ optKw "items" items
 
-/-- the `Tuple` branch: `additionalItems: False` always, `items` always a list -/
+/-- the positional `Tuple` branch (two or more item fields): `additionalItems: False` always,
+    `items` a list; `Tuple[X]` (one item field) goes through `arrKws` with `items: X` -/
 def tupKws (uniq : Bool) (items : List PyVal) : List (PyVal × PyVal) :=
   [kw "type" (.str "array")]
   ++ optKw "uniqueItems" (if uniq then some (.bool true) else none)
@@ -131,14 +139,15 @@ def isStringField : FieldDecl → Bool
   | .string _ _ _ => true
   | _ => false
 
-/-- `MapMapper.to_schema`: the value schema goes *directly* under `patternProperties` when the key
-    field is constrained, under `additionalProperties` otherwise; the sizes are emitted as
+/-- `MapMapper.to_schema`: `patternProperties: {<key pattern>: <value schema>}` when the key field
+    is constrained, `additionalProperties: <value schema>` otherwise; the sizes are emitted as
     `maxItems` / `minItems` -/
 def mapKws (key : Option FieldDecl) (valSchema : Option PyVal) (sz : SizeOpts) : List (PyVal × PyVal) :=
   [kw "type" (.str "object")]
   ++ (match key, valSchema with
       | some k, some vs =>
-        if mapKeyPattern k != "" then [kw "patternProperties" vs] else [kw "additionalProperties" vs]
+        if mapKeyPattern k != "" then [kw "patternProperties" (.dict [kw (mapKeyPattern k) vs])]
+        else [kw "additionalProperties" vs]
       | _, _ => [])
   ++ optKw "maxItems" (sz.max.map natJ)
   ++ optKw "minItems" (sz.min.map natJ)
@@ -227,7 +236,7 @@ def emit (fx : Bool) : FieldDecl → PyVal
     .dict (arrKws sz (if addl then none else some (.bool false)) (some (.list (emitL fx fs))))
   | .setAny _ sz => .dict (setKws sz none)
   | .setOf _ f sz => .dict (setKws sz (some (emit fx f)))
-  | .tupleOf f u => .dict (tupKws u [emit fx f])
+  | .tupleOf f u => .dict (arrKws { uniq := u } none (some (emit fx f)))
   | .tuplePos fs u => .dict (tupKws u (emitL fx fs))
   | .mapAny sz => .dict (mapKws none none sz)
   | .mapOf k v sz => .dict (mapKws (some k) (some (emit fx v)) sz)
